@@ -132,8 +132,10 @@ func TestC02Search(t *testing.T) {
 		nq := 6
 		for qi := 0; qi < nq; qi++ {
 			var q *Q
-			if rapid.IntRange(0, 4).Draw(t, "frequentCompound") == 0 {
+			if shape := rapid.IntRange(0, 5).Draw(t, "queryShape"); shape == 0 {
 				q = g.FrequentCompound(t, fmt.Sprintf("fq%d", qi))
+			} else if shape == 1 {
+				q = g.RareTerms(t, fmt.Sprintf("rq%d", qi))
 			} else {
 				q = g.Tree(t, fmt.Sprintf("q%d", qi), 3)
 			}
